@@ -831,9 +831,16 @@ func (w *htlcWorkload) createIncoming(st *htState, fate string, lock uint64, den
 	tag := &htTag{Kind: "create", Type: "incoming", Fate: fate}
 	toI, _ := w.pickAcc(dep)
 	to := w.r.Acc(toI).Addr.String()
-	if rng.Intn(12) == 0 {
+	switch rng.Intn(24) {
+	case 0, 1:
 		to = sdk.AccAddress([]byte(fmt.Sprintf("htlc-fresh-addr-%06d", rng.Intn(1000000)))).String()
 		tag.Note += "/to-fresh"
+	case 2: // recipients that cannot (or must not) receive: the module's own escrow account, a bank-blocked module account
+		to = w.escrow
+		tag.Note += "/to-escrow"
+	case 3:
+		to = authtypes.NewModuleAddress(pick(rng, "fee_collector", "distribution", "mint", "bonded_tokens_pool")).String()
+		tag.Note += "/to-blocked"
 	}
 	min, max := bi(a.MinSwapAmount), bi(a.MaxSwapAmount)
 	cur, inc, tl := new(big.Int), new(big.Int), new(big.Int)
@@ -3140,15 +3147,12 @@ func (d *htDirector) blockEnd(br *rig.BlockRecord, oe *htSnap) {
 			}
 		}
 	}
-	// conservation: what is in escrow is what open contracts put there (plus what escrow holds as a recipient)
+	// conservation: what is in escrow is what open contracts put there
 	want := map[string]*big.Int{}
 	for _, c := range d.model {
 		if c.State == htlctypes.Open && c.escrowed() {
 			htAddCoins(want, c.Amount, 1)
 		}
-	}
-	for k, v := range d.escrowOwn {
-		want[k] = new(big.Int).Add(htGet(want, k), v)
 	}
 	esc := map[string]*big.Int{}
 	htAddCoins(esc, oe.Bal[d.escrow], 1)
